@@ -25,6 +25,8 @@ struct Rl {
     callers: usize,
     max_ticks: usize,
     max_drops: usize,
+    /// the executor may poll woken waiters late (this many ticks may pass first)
+    late_ticks: usize,
 }
 
 struct X {
@@ -124,13 +126,16 @@ impl Scenario for Rl {
         self.prop
     }
     fn label(&self) -> String {
-        format!("ratelimiter window={} limit={} period={}ms timeout={}ms callers={}", wname(self.window), self.limit, PERIOD, self.timeout, self.callers)
+        format!("ratelimiter window={} limit={} period={}ms timeout={}ms callers={}{}", wname(self.window), self.limit, PERIOD, self.timeout, self.callers, if self.late_ticks > 0 { " late-polls" } else { "" })
     }
     fn callers(&self) -> usize {
         self.callers
     }
     fn mode(&self) -> Mode {
         Mode::Script
+    }
+    fn late_ticks(&self) -> usize {
+        self.late_ticks
     }
     fn init(&self, w: &mut World) -> X {
         let layer = RateLimiterLayer::builder()
@@ -223,7 +228,7 @@ impl Scenario for Rl {
                         out.push(Viol::new("rejected_reached_inner", site, format!("caller {c} was rejected but reached the inner service")));
                     }
                     let d = cl.done_ms.unwrap();
-                    if d > fp + self.timeout {
+                    if self.late_ticks == 0 && d > fp + self.timeout {
                         out.push(Viol::new("decided_after_timeout", site, format!("caller {c} arrived {fp}, rejected at {d}, timeout {}", self.timeout)));
                     }
                 }
@@ -233,14 +238,14 @@ impl Scenario for Rl {
                     }
                 }
                 Phase::Live => {
-                    if admitted_at.is_none() && now > fp + self.timeout {
+                    if self.late_ticks == 0 && admitted_at.is_none() && now > fp + self.timeout {
                         out.push(Viol::new("undecided_after_timeout", site, format!("caller {c} arrived {fp}, still undecided at {now}, timeout {}", self.timeout)));
                     }
                 }
                 _ => {}
             }
             if let Some(t) = admitted_at {
-                if t > fp + self.timeout {
+                if self.late_ticks == 0 && t > fp + self.timeout {
                     out.push(Viol::new("decided_after_timeout", site, format!("caller {c} arrived {fp}, admitted at {t}, timeout {}", self.timeout)));
                 }
             }
@@ -285,6 +290,9 @@ impl Scenario for Rl {
             if w.callers[c].polls > 0 && !has_inner(w, c) {
                 v.push("drop_while_waiting");
             }
+        }
+        if w.late_ticks > 0 {
+            v.push("time_passed_while_a_woken_waiter_was_unpolled");
         }
         v
     }
@@ -335,8 +343,13 @@ fn configs(prop: &'static str, tier: Tier) -> Vec<Rl> {
                     Tier::Quick => limit + 2,
                     Tier::Thorough => 4,
                 };
-                v.push(Rl { prop, window, limit, timeout, callers, max_ticks: tier.pick(9, 12), max_drops: tier.pick(1, 2) });
+                v.push(Rl { prop, window, limit, timeout, callers, max_ticks: tier.pick(9, 12), max_drops: tier.pick(1, 2), late_ticks: 0 });
             }
+        }
+        // a late executor: waiters woken for the next window are polled up to two ticks late
+        // (the decided-within-timeout clause presupposes prompt polling and is not judged here)
+        for timeout in tier.pick(vec![100u64], vec![40, 100]) {
+            v.push(Rl { prop, window, limit: 1, timeout, callers: 3, max_ticks: tier.pick(8, 10), max_drops: tier.pick(0, 1), late_ticks: 2 });
         }
     }
     v
@@ -362,10 +375,10 @@ fn main() {
     let mut rep = Report::new(prop, tier, "model_checking");
     rep.rule = "BFS over action histories {Arrive,Poll,Drop,Tick} of the real RateLimiter (all three window types) under virtual time; the admission instants of every state are judged by a window-cut / spacing oracle that does not mirror the implementation".into();
     rep.assumptions = vec![
-        "prompt executor; 'arrival' is the first poll of the call future".into(),
+        "prompt executor; 'arrival' is the first poll of the call future (the late-polls configurations let up to two ticks pass while a woken waiter is unpolled; only the window, exactly-once and not-after-rejection clauses are judged there)".into(),
         "inner service resolves at once, so admission instant = inner call instant".into(),
     ];
-    for w in ["two_callers_waiting", "two_waiters_woken_at_one_instant", "rejected", "admitted_after_waiting", "admitted_on_period_boundary", "drop_while_waiting"] {
+    for w in ["two_callers_waiting", "two_waiters_woken_at_one_instant", "rejected", "admitted_after_waiting", "admitted_on_period_boundary", "drop_while_waiting", "time_passed_while_a_woken_waiter_was_unpolled"] {
         rep.require_witness(w);
     }
     let depth = tier.pick(16, 22);
